@@ -61,7 +61,12 @@ def gen():
         sp["excluded"] = []
         return sp
 
-    return base.map(fix)
+    def with_ids(t):
+        sp, perm = t
+        sp["ids"] = [["zz_first", "mm_middle", "aa_last"][i] for i in perm][: len(sp["kernels"])] if perm else None
+        return sp
+
+    return st.tuples(base.map(fix), st.one_of(st.none(), st.permutations([0, 1, 2]))).map(with_ids)
 
 
 def phases(spec):
@@ -80,7 +85,9 @@ def oracle(spec):
     ref = el.reference(spec)
     C = spec["chains"]
     post, warm = phases(spec)
-    tabs = {f"kernel_{i:02d}": el.err_table(spec, kk)[:, 1:] for i, kk in enumerate(spec["kernels"])}   # (C, transitions)
+    ids = el.kernel_ids(spec)
+    tabs = {ids[i]: el.err_table(spec, kk)[:, 1:] for i, kk in enumerate(spec["kernels"])}   # (C, transitions)
+    books = {ids[i]: (el.ProbeKernelH if kk["hist"] else el.ProbeKernel).error_book for i, kk in enumerate(spec["kernels"])}
 
     # ---- error log
     for posterior_only in (False, True):
@@ -94,7 +101,8 @@ def oracle(spec):
             require(np.array_equal(np.asarray(kel.transition), np.where(mask)[0]), tag + ":transitions",
                     lambda: f"{kid}: got {np.asarray(kel.transition).tolist()} expected {np.where(mask)[0].tolist()}; {det}")
             require(np.array_equal(np.asarray(kel.error_codes), t[:, mask]), tag + ":codes", lambda: f"{kid}; {det}")
-            require(kel.kernel_ident == kid and kel.kernel_cls.unwrap().error_book[7] == "probe error seven", tag + ":kernel-class", det)
+            require(kel.kernel_ident == kid and kel.kernel_cls.unwrap().error_book[7] == books[kid][7], tag + ":kernel-class",
+                    lambda: f"{kid}: error log carries class {kel.kernel_cls.unwrap().__name__}; {det}")
 
     # ---- summary
     with silence():
@@ -102,7 +110,6 @@ def oracle(spec):
         summ_pc = gs.Summary(res, per_chain=True)
     es = summ.error_summary
     require(sorted(es) == sorted(tabs), "summary:kernels", f"{sorted(es)}; {det}")
-    book = el.ProbeKernel.error_book
     n_codes, both_phases, subset, errfree = set(), False, False, False
     for kid, tab in tabs.items():
         codes = sorted(int(c) for c in np.unique(tab) if c != 0)
@@ -117,7 +124,7 @@ def oracle(spec):
                     lambda: f"{kid} code {code}: {np.asarray(e.count_per_chain).tolist()} expected {tot.tolist()}; {det}")
             require(e.count_per_chain_posterior is not None and np.array_equal(np.asarray(e.count_per_chain_posterior), pst),
                     "summary:count_per_chain_posterior", lambda: f"{kid} code {code}: {e.count_per_chain_posterior} expected {pst.tolist()}; {det}")
-            require(e.error_msg == book[code] and int(e.error_code) == code, "summary:error-message", f"{kid} code {code}: {e.error_msg!r}; {det}")
+            require(e.error_msg == books[kid][code] and int(e.error_code) == code, "summary:error-message", f"{kid} code {code}: {e.error_msg!r} expected {books[kid][code]!r}; {det}")
             n_codes.add(code)
             both_phases |= bool(pst.sum() > 0 and (tot - pst).sum() > 0)
             subset |= bool(0 < np.sum(tot > 0) < C)
@@ -131,9 +138,9 @@ def oracle(spec):
                     cnt = np.sum(tab[:, m] == code, axis=1)
                     if per_chain:
                         for c in range(C):
-                            exp[(kid, code, book[code], phase, c)] = int(cnt[c])
+                            exp[(kid, code, books[kid][code], phase, c)] = int(cnt[c])
                     else:
-                        exp[(kid, code, book[code], phase)] = int(cnt.sum())
+                        exp[(kid, code, books[kid][code], phase)] = int(cnt.sum())
         if not exp:
             require(df.empty, "error_df:not-empty-without-errors", det)
             continue
